@@ -73,7 +73,7 @@ Definition ps (s : st) : nat := match desc s with Some d => p_pos d | None => n0
 (* how far the copy has got *)
 Definition hw (s : st) : nat :=
   match wrk s with
-  | Some (WCopy cp) | Some (WSave cp) | Some (WCheck cp) | Some (WWait cp) => cp
+  | Some (WCopy cp) | Some (WSave cp) | Some (WCheck cp) | Some (WWait cp) | Some (WRetry cp) => cp
   | _ => ps s
   end.
 
@@ -107,7 +107,7 @@ Ltac break1 :=
 
 Lemma alive_step_eq s l : alive (step af tags s l) = alive s && match l with LDelete => false | _ => true end.
 Proof.
-  destruct l; cbn [step]; unfold work_step, worker_done, on_write_event;
+  destruct l; cbn [step]; unfold work_step, worker_done, on_write_event, refuse_step;
     repeat break1; cbn; repeat match goal with H : alive s = _ |- _ => rewrite H; clear H end;
     rewrite ?andb_true_r, ?andb_false_r; reflexivity.
 Qed.
@@ -145,7 +145,7 @@ Lemma Inv_write s e b : Inv s -> Inv (step af tags s (LWrite (e :: b))).
 Proof.
   intros H. inv_intro H. destruct s as [L c T Q D W X A]. unf.
   assert (Hlen : length (L ++ e :: b) = length L + S (length b)) by (rewrite app_length; reflexivity).
-  assert (Hn : n0 <= length L) by (destruct W as [[| cp | cp | cp | cp |]|]; destruct D; lia).
+  assert (Hn : n0 <= length L) by (destruct W as [[| cp | cp | cp | cp | | cp]|]; destruct D; lia).
   constructor; unf; try assumption; try (rewrite Hlen; lia).
   - rewrite app_assoc, Hlen. apply chain_snoc; [exact Hch|lia].
   - rewrite skipn_app_le by exact Hn. rewrite firstn_app_le; [exact Hd|]. rewrite skipn_length. lia.
@@ -161,7 +161,7 @@ Qed.
 Lemma Inv_flush s : Inv s -> Inv (step af tags s LFlush).
 Proof.
   intros H. inv_intro H. destruct s as [L c T Q D W X A]. unf.
-  constructor; unf; try assumption; destruct W as [[| cp | cp | cp | cp |]|]; destruct D; lia.
+  constructor; unf; try assumption; destruct W as [[| cp | cp | cp | cp | | cp]|]; destruct D; lia.
 Qed.
 
 Lemma Inv_deliver s : alive s = true -> Inv s -> Inv (step af tags s LDeliver).
@@ -190,7 +190,7 @@ Qed.
 Lemma Inv_work s : alive s = true -> Inv s -> Inv (step af tags s LWork).
 Proof.
   intros Ha H. inv_intro H. destruct s as [L c T Q D W X A]. unf. subst A. unfold work_step. simp.
-  destruct W as [[| cp | cp | cp | cp |]|]; [| | | | | |constructor; unf; assumption].
+  destruct W as [[| cp | cp | cp | cp | | cp]|]; [| | | | | | |constructor; unf; assumption].
   - (* WStart *)
     destruct Hw as (d & -> & Hc & _). simp. rewrite Nat.min_l by lia.
     constructor; unf; try assumption; try lia. exists d. repeat split; assumption.
@@ -224,12 +224,15 @@ Proof.
     + constructor; unf; try assumption. eexists. repeat split.
     + destruct Hor as [Hor|Hor]; [discriminate|].
       constructor; unf; try assumption. split; [reflexivity|exact Hor].
+  - (* WRetry *)
+    destruct Hw as (d & -> & Hc & _). simp.
+    constructor; unf; try assumption. exists d. repeat split; assumption.
 Qed.
 
 Lemma Inv_timeout s : Inv s -> Inv (step af tags s LTimeout).
 Proof.
   intros H. inv_intro H. destruct s as [L c T Q D W X A]. unf.
-  destruct W as [[| cp | cp | cp | cp |]|]; try (constructor; unf; assumption).
+  destruct W as [[| cp | cp | cp | cp | | cp]|]; try (constructor; unf; assumption).
   destruct Hw as (d & -> & Hc & Hp). simp. subst cp.
   constructor; unf; try assumption; try lia. exists d. repeat split; assumption.
 Qed.
@@ -242,12 +245,26 @@ Proof.
   destruct T; [|discriminate]. destruct Q; [|discriminate].
   apply andb_true_iff in Hq as [Hcl Hq]. apply Nat.eqb_eq in Hcl. simp. cbn [app chain] in Hch.
   destruct D as [d|].
-  - destruct W as [[| cp | cp | cp | cp |]|]; try discriminate.
+  - destruct W as [[| cp | cp | cp | cp | | cp]|]; try discriminate.
     + apply Nat.leb_le in Hq. destruct Hw as (d' & Hd' & Hc & Hp). injection Hd' as <-.
       constructor; unf; try assumption; try lia; try (rewrite Hp; exact Hd); try (split; [reflexivity|lia]).
     + destruct Hw as (Hc & Hle). constructor; unf; try assumption; try lia.
   - destruct W as [ph|]; [destruct Hw as (d' & Hd' & _); discriminate|].
     constructor; unf; try assumption; try lia.
+Qed.
+
+(* a refused destination write keeps the invariant: the records before cp are stored, the worker will hand cp over
+   again; saving cp meanwhile (save = true) moves Pos up to the high-water mark *)
+Lemma Inv_refuse s save : Inv s -> Inv (step af tags s (LRefuse save)).
+Proof.
+  intros H. cbn [step]. unfold refuse_step.
+  destruct (wrk s) as [[| cp | cp | cp | cp | | cp]|] eqn:Ew; try exact H.
+  destruct (cp <? cfrm s) eqn:El; [|exact H].
+  destruct (nth_error (log s) cp) as [e|] eqn:En; [|exact H].
+  destruct (passes af e); [|exact H].
+  inv_intro H. destruct s as [L c T Q D W X A]. unf. subst W.
+  destruct Hw as (d & -> & Hc & _). simp.
+  destruct save; constructor; unf; try assumption; try lia; eexists; repeat split; assumption.
 Qed.
 
 Lemma Inv_step s l : alive s = true -> l <> LDelete -> enq_in_order l -> Inv s -> Inv (step af tags s l).
@@ -261,6 +278,7 @@ Proof.
   - apply Inv_timeout. exact H.
   - congruence.
   - apply Inv_restart. exact H.
+  - apply Inv_refuse. exact H.
 Qed.
 
 Lemma Inv_run s sched : alive (run af tags s sched) = true -> Forall enq_in_order sched -> Inv s -> Inv (run af tags s sched).
@@ -280,7 +298,7 @@ Proof.
   apply andb_true_iff in Hq as [Hcl Hq]. apply Nat.eqb_eq in Hcl.
   inv_intro H. rewrite Ei, Eq in Hch. cbn in Hch. unfold wrk_ok, hw, ps, lk in *.
   assert (Hhw : hw s = length (log s)).
-  { unfold hw, ps. destruct (wrk s) as [[| cp | cp | cp | cp |]|] eqn:Ew; try discriminate.
+  { unfold hw, ps. destruct (wrk s) as [[| cp | cp | cp | cp | | cp]|] eqn:Ew; try discriminate.
     - apply Nat.leb_le in Hq. lia.
     - destruct (desc s) as [d|]; [destruct Hw as (_ & Hle); lia|lia]. }
   unfold hw, ps in Hhw. rewrite Hd. f_equal. f_equal.
@@ -292,7 +310,7 @@ Definition keep_inv (s : st) : Prop := forallb e_keep (skipn n0 (log s)) = true.
 
 Lemma log_step s l : log (step af tags s l) = match l with LWrite b => log s ++ b | _ => log s end.
 Proof.
-  destruct l; cbn [step]; unfold work_step, worker_done, on_write_event; repeat break1; cbn; rewrite ?app_nil_r; reflexivity.
+  destruct l; cbn [step]; unfold work_step, worker_done, on_write_event, refuse_step; repeat break1; cbn; rewrite ?app_nil_r; reflexivity.
 Qed.
 
 Lemma keep_step s l : n0 <= length (log s) -> write_all_keep l -> keep_inv s -> keep_inv (step af tags s l).
@@ -346,7 +364,7 @@ Lemma dead_step af tags s l : alive s = false -> copying s = false ->
   let s' := step af tags s l in alive s' = false /\ copying s' = false /\ dst s' = dst s.
 Proof.
   intros Ha Hc. destruct s as [L c T Q D W X A]. unfold copying in *. cbn in Ha, Hc. subst A.
-  destruct l; cbn [step]; unfold work_step, worker_done, on_write_event, start_worker, quiescent; cbn;
+  destruct l; cbn [step]; unfold work_step, worker_done, on_write_event, refuse_step, start_worker, quiescent; cbn;
     repeat (break2; cbn); cbn in *; try discriminate; repeat split; try reflexivity; try assumption.
   all: match goal with H : (if ?x then _ else _) = _ |- _ => destruct x; discriminate end.
 Qed.
@@ -367,7 +385,7 @@ Proof.
   - destruct (queue s) as [|[a b] q]; [exists []; rewrite app_nil_r; reflexivity|].
     destruct (alive s); [|exists []; rewrite app_nil_r; reflexivity].
     unfold on_write_event. destruct (start_worker _). exists []; rewrite app_nil_r; reflexivity.
-  - unfold work_step. destruct (wrk s) as [[| cp | cp | cp | cp |]|]; try (exists []; rewrite app_nil_r; reflexivity).
+  - unfold work_step. destruct (wrk s) as [[| cp | cp | cp | cp | | cp]|]; try (exists []; rewrite app_nil_r; reflexivity).
     + destruct (desc s); [destruct (alive s)|]; exists []; rewrite app_nil_r; reflexivity.
     + destruct (cp <? cfrm s); [|exists []; rewrite app_nil_r; reflexivity].
       destruct (nth_error (log s) cp) as [e|]; [|exists []; rewrite app_nil_r; reflexivity].
@@ -376,8 +394,10 @@ Proof.
     + destruct (alive s); [destruct (cp <? cfrm s)|]; exists []; rewrite app_nil_r; reflexivity.
     + destruct (alive s); [destruct (cp <? cfrm s)|]; exists []; rewrite app_nil_r; reflexivity.
     + unfold worker_done. destruct (desc s); [destruct (start_worker _)|]; exists []; rewrite app_nil_r; reflexivity.
-  - destruct (wrk s) as [[| cp | cp | cp | cp |]|]; exists []; rewrite app_nil_r; reflexivity.
+    + destruct (alive s); exists []; rewrite app_nil_r; reflexivity.
+  - destruct (wrk s) as [[| cp | cp | cp | cp | | cp]|]; exists []; rewrite app_nil_r; reflexivity.
   - destruct (quiescent s && alive s); exists []; rewrite app_nil_r; reflexivity.
+  - unfold refuse_step. repeat break2; exists []; rewrite app_nil_r; reflexivity.
 Qed.
 
 (* ---------- re-arm (used by C11): an idle descriptor is never behind its last notification ---------- *)
@@ -435,7 +455,7 @@ Proof.
       * destruct Hor as [Hor|Hor]; [discriminate|]. constructor; unf2; try assumption. split; [reflexivity|exact Hor].
   - (* LWork *)
     unfold work_step. simp2.
-    destruct W as [[| cp | cp | cp | cp |]|]; [| | | | | |constructor; unf2; assumption].
+    destruct W as [[| cp | cp | cp | cp | | cp]|]; [| | | | | | |constructor; unf2; assumption].
     + destruct Hw as (d & -> & Hc & _). simp2.
       destruct A; constructor; unf2; try assumption; exists d; repeat split; assumption.
     + destruct Hw as (d & -> & Hc & _). simp2.
@@ -453,8 +473,10 @@ Proof.
       * constructor; unf2; try assumption. eexists. repeat split.
       * destruct Hor as [Hor|Hor]; [discriminate|].
         constructor; unf2; try assumption. split; [reflexivity|exact Hor].
+    + destruct Hw as (d & -> & Hc & _). simp2.
+      destruct A; constructor; unf2; try assumption; exists d; repeat split; assumption.
   - (* LTimeout *)
-    destruct W as [[| cp | cp | cp | cp |]|]; try (constructor; unf2; assumption).
+    destruct W as [[| cp | cp | cp | cp | | cp]|]; try (constructor; unf2; assumption).
     destruct Hw as (d & -> & Hc & Hp). simp2.
     constructor; unf2; try assumption. exists d. repeat split; assumption.
   - (* LDelete *)
@@ -465,12 +487,20 @@ Proof.
     destruct T; [|discriminate]. destruct Q; [|discriminate].
     apply andb_true_iff in Hq as [Hcl Hq]. apply Nat.eqb_eq in Hcl.
     destruct D as [d|].
-    + destruct W as [[| cp | cp | cp | cp |]|]; try discriminate.
+    + destruct W as [[| cp | cp | cp | cp | | cp]|]; try discriminate.
       * apply Nat.leb_le in Hq. destruct Hw as (d' & Hd' & Hc & Hp). injection Hd' as <-.
         constructor; unf2; try assumption. split; [reflexivity|lia].
       * destruct Hw as (Hc & Hle). constructor; unf2; try assumption. split; [reflexivity|exact Hle].
     + destruct W as [ph|]; [destruct Hw as (d' & Hd' & _); discriminate|].
       constructor; unf2; assumption.
+  - (* LRefuse *)
+    unfold refuse_step. simp2.
+    destruct W as [[| cp | cp | cp | cp | | cp]|]; try (constructor; unf2; assumption).
+    destruct (cp <? c); [|constructor; unf2; assumption].
+    destruct (nth_error L cp) as [e|]; [|constructor; unf2; assumption].
+    destruct (passes af e); [|constructor; unf2; assumption].
+    destruct Hw as (d & -> & Hc & _). simp2.
+    destruct save; constructor; unf2; try assumption; eexists; repeat split; assumption.
 Qed.
 
 Lemma rearm_init pre c0 : rearm_ok (init pre c0).
@@ -522,4 +552,53 @@ Theorem recreate_exact af tags s1 sched :
 Proof.
   intros Hq Hf Ho. rewrite (recreate_quiescent s1 Hq).
   exact (exact_partial af tags (log s1) _ sched eq_refl Hf Ho).
+Qed.
+
+(* ---------- the destination is write-only for the protocol: a prefix in front of it is carried along ---------- *)
+Lemma step_add_dst af tags d0 s l : step af tags (add_dst d0 s) l = add_dst d0 (step af tags s l).
+Proof.
+  destruct s as [L c T Q D W X A]. unfold add_dst.
+  destruct l; cbn [step]; unfold work_step, worker_done, on_write_event, refuse_step, start_worker, quiescent, upd_dst; cbn;
+    repeat (break2; cbn); rewrite ?app_assoc; reflexivity.
+Qed.
+
+Lemma run_add_dst af tags d0 s sched : run af tags (add_dst d0 s) sched = add_dst d0 (run af tags s sched).
+Proof.
+  revert s. induction sched as [|l tl IH]; intros s; [reflexivity|].
+  cbn [run]. rewrite step_add_dst. apply IH.
+Qed.
+
+(* ---------- the source partition deleted and created again: exactness continues behind what was copied ---------- *)
+Theorem drop_source_exact af tags s1 sched :
+  alive s1 = true ->
+  (af = true \/ Forall write_all_keep sched) -> Forall enq_in_order sched ->
+  let s := run af tags (drop_source s1) sched in
+  alive s = true -> quiescent s = true -> dst s = dst s1 ++ expected tags 0 (log s).
+Proof.
+  intros Ha1 Hf Ho.
+  assert (E : drop_source s1 = add_dst (dst s1) (init [] 0)).
+  { unfold drop_source, add_dst, init, upd_dst. cbn. rewrite Ha1, app_nil_r. reflexivity. }
+  rewrite E, run_add_dst. cbn zeta. unfold add_dst, upd_dst. cbn [alive quiescent dst log infl queue cfrm wrk].
+  intros Ha Hq. f_equal.
+  exact (exact_partial af tags [] 0 sched eq_refl Hf Ho Ha Hq).
+Qed.
+
+(* ---------- a destination that refuses record cp every time: the worker stays at cp, nothing more is copied ---------- *)
+Lemma refuse_cycle af tags s cp e :
+  alive s = true -> wrk s = Some (WCopy cp) -> (cp <? cfrm s) = true -> nth_error (log s) cp = Some e -> passes af e = true ->
+  desc s <> None ->
+  step af tags (step af tags s (LRefuse false)) LWork = s.
+Proof.
+  intros Ha Hw Hl Hn Hp Hd. destruct s as [L c T Q D W X A]. cbn in *. subst A W.
+  unfold refuse_step. cbn. rewrite Hl, Hn, Hp. destruct D as [d|]; [|congruence].
+  cbn. unfold work_step. cbn. reflexivity.
+Qed.
+
+Theorem refused_forever af tags s cp e n :
+  alive s = true -> wrk s = Some (WCopy cp) -> (cp <? cfrm s) = true -> nth_error (log s) cp = Some e -> passes af e = true ->
+  desc s <> None ->
+  run af tags s (concat (repeat [LRefuse false; LWork] n)) = s.
+Proof.
+  intros Ha Hw Hl Hn Hp Hd. induction n as [|n IH]; [reflexivity|].
+  cbn [repeat concat app run]. rewrite (refuse_cycle af tags s cp e) by assumption. exact IH.
 Qed.
